@@ -254,6 +254,21 @@ func init() {
 		})
 	}
 
+	reg("(*sync/atomic.Value).Store", func(ex *Exec, fr *frame, a []Value) Value {
+		p := a[0].(*Value)
+		ex.atomicSync(p)
+		ex.atomics[p] = a[1]
+		return nil
+	})
+	reg("(*sync/atomic.Value).Load", func(ex *Exec, fr *frame, a []Value) Value {
+		p := a[0].(*Value)
+		ex.atomicSync(p)
+		if v, ok := ex.atomics[p]; ok {
+			return v
+		}
+		return Iface{}
+	})
+
 	// ---- errors / fmt ----
 	reg("errors.New", func(ex *Exec, fr *frame, a []Value) Value { return ex.newError(a[0]) })
 	reg("fmt.Errorf", func(ex *Exec, fr *frame, a []Value) Value { return ex.newError(ex.sprintf(fr, a[0], a[1])) })
